@@ -12,5 +12,6 @@ func TestVerifSim(t *testing.T) {
 		"C11": verifEngineC,
 		"C12": verifEngineC,
 		"C13": verifEngineC,
+		"C14": verifEngineC14,
 	})
 }
